@@ -43,14 +43,25 @@ func execute(sc *Scenario, choose sched.Chooser) *execResult {
 		// the root was closed by the scenario: its Close ran the final pass
 		r.log(M{"e": "quiesce"})
 	} else if res.stuck == "" && !res.deadlock && !res.overrun && !sc.NoQuiesce {
-		// activity has stopped: one more report pass, then an idle one
-		r.log(M{"e": "passb", "p": "final#1", "t": "final"})
-		tally.VerifReportOnce(r.root)
-		r.log(M{"e": "passe", "p": "final#1", "t": "final"})
-		r.log(M{"e": "quiesce"})
-		r.log(M{"e": "passb", "p": "final#2", "t": "final"})
-		tally.VerifReportOnce(r.root)
-		r.log(M{"e": "passe", "p": "final#2", "t": "final"})
+		// activity has stopped: one more report pass, then an idle one.  Every scenario goroutine has finished, so a pass
+		// that does not come back (a lock somebody left locked) is a hang of the code: reported as a deadlock
+		finished := make(chan struct{})
+		go func() {
+			defer close(finished)
+			r.log(M{"e": "passb", "p": "final#1", "t": "final"})
+			tally.VerifReportOnce(r.root)
+			r.log(M{"e": "passe", "p": "final#1", "t": "final"})
+			r.log(M{"e": "quiesce"})
+			r.log(M{"e": "passb", "p": "final#2", "t": "final"})
+			tally.VerifReportOnce(r.root)
+			r.log(M{"e": "passe", "p": "final#2", "t": "final"})
+		}()
+		select {
+		case <-finished:
+		case <-time.After(10 * time.Second):
+			res.deadlock = true
+			r.log(M{"e": "deadlock", "where": "a report pass started after all scenario goroutines had finished did not return within 10 s"})
+		}
 	}
 	r.mu.Lock()
 	res.events = r.ev
